@@ -79,8 +79,11 @@ ASSUMPTIONS = [
     "register-valued conditions cannot be expressed by the photonic program and are not "
     "generated",
 ]
-FLOORS = {"adaptive": 0.15, "lowcut": 0.04, "ent>=1": 0.25, "readout_state": 0.1,
-          "readout_measure": 0.1}
+# Low on purpose: after a failure the evaluations are dominated by Hypothesis' shrink
+# candidates (small circuits without entangling gates), and a floor miss would turn a
+# detected violation into exit 2.  Unchanged tree: adaptive ~0.6, lowcut ~0.4, ent>=1 ~0.3.
+FLOORS = {"adaptive": 0.05, "lowcut": 0.02, "ent>=1": 0.03, "readout_state": 0.05,
+          "readout_measure": 0.05}
 
 SINGLE = ["h", "x", "y", "z", "rx", "ry", "rz", "u", "p"]
 DIAGONAL = {"z", "rz", "p"}
@@ -647,10 +650,10 @@ def circuit(draw, mode="main", tier="quick"):
 def parts(tier):
     ps = [
         Part("main", prop, strategy=lambda tier: circuit("main", tier),
-             examples={"quick": 480, "thorough": 6000},
+             examples={"quick": 320, "thorough": 6000},
              budget_s={"quick": 130, "thorough": 3000}),
         Part("lowcut", prop, strategy=lambda tier: circuit("lowcut", tier),
-             examples={"quick": 96, "thorough": 1000},
+             examples={"quick": 64, "thorough": 1000},
              budget_s={"quick": 60, "thorough": 600}),
         Part("leak_condition", prop, strategy=lambda tier: circuit("leak_condition", tier),
              examples={"quick": 32, "thorough": 200},
